@@ -2,7 +2,7 @@
 from __future__ import annotations
 import ast
 from ..affine import NF, equal, add, text
-from ..cp import batch, is_zero, row_writers
+from ..cp import batch, is_zero, row_writers, step_local
 from ..common import STEP_FN, step_roles, init_roles
 from ..model import norm, walk_no_nested, AnalysisError
 from ..rdef import flow_of, ENTRY
@@ -28,7 +28,8 @@ def _find_irrigation(prog):
 def run(chk, prog, tier):
     # ------------------------------------------------------------ C13.a
     configs = [{}, {"IrrMngt.irrigation_method": 0}, {"IrrMngt.irrigation_method": 4}]
-    res = batch(prog, configs, want_locals=["Irr", "IrrDay"])
+    irr_name, irrday_name = step_local(prog, "irr"), step_local(prog, "irr_day")
+    res = batch(prog, configs, want_locals=[irr_name, irrday_name])
     loc = prog.func(STEP_FN).loc(row_writers(prog)["water_flux"])
     chk.fn(STEP_FN)
     def expect_zero(r, gs, name, label):
@@ -42,11 +43,11 @@ def run(chk, prog, tier):
                 chk.ok("C13.a", STEP_FN, construct, f"constant {v}")
             else:
                 chk.violation("C13.a", STEP_FN, construct, f"{name} is {v}, not the constant 0", loc=loc)
-    expect_zero(res[0], False, "Irr", "growing_season=False (any method)")
-    expect_zero(res[0], False, "IrrDay", "growing_season=False (any method)")
-    expect_zero(res[1], True, "Irr", "irrigation_method=0, growing_season=True")
-    expect_zero(res[1], True, "IrrDay", "irrigation_method=0, growing_season=True")
-    expect_zero(res[2], True, "Irr", "irrigation_method=4, growing_season=True")
+    expect_zero(res[0], False, irr_name, "growing_season=False (any method)")
+    expect_zero(res[0], False, irrday_name, "growing_season=False (any method)")
+    expect_zero(res[1], True, irr_name, "irrigation_method=0, growing_season=True")
+    expect_zero(res[1], True, irrday_name, "irrigation_method=0, growing_season=True")
+    expect_zero(res[2], True, irr_name, "irrigation_method=4, growing_season=True")
     for r in res:
         chk.valuation(str(r.config))
 
@@ -248,7 +249,7 @@ def irrigation_context(chk, prog):
     assign = [n for n in walk_no_nested(step.node) if isinstance(n, ast.Assign) and n.value is call]
     tg = assign[0].targets[0].elts if assign and isinstance(assign[0].targets[0], ast.Tuple) else []
     pos_cum = next((i for i, t in enumerate(tg) if isinstance(t, ast.Attribute) and t.attr == "irr_cum"), None)
-    pos_irr = next((i for i, t in enumerate(tg) if isinstance(t, ast.Name) and t.id == "Irr"), None)
+    pos_irr = next((i for i, t in enumerate(tg) if isinstance(t, ast.Name)), None)
     if pos_cum is None or pos_irr is None:
         raise AnalysisError("cannot identify the returned irrigation depth / seasonal counter")
     r_irr, r_cum = ret[0].value.elts[pos_irr], ret[0].value.elts[pos_cum]
